@@ -28,11 +28,17 @@ def make_params(n: dict, sr: dict, km: dict):
                          k_ro_max=km["o"], k_rw_max=km["w"], k_rg_max=km["g"])
 
 
+FIELD_ORDERS = (("So", "Sw", "Sg"), ("So", "Sg", "Sw"), ("Sg", "Sw", "So"))   # the records are addressed by NAME
+
+
 def records(sats: list[dict]):
-    """Record array with fields So, Sw, Sg (as the tests build it: DataFrame.to_records(index=False))."""
-    df = pd.DataFrame({"So": np.array([s["o"] for s in sats], dtype=float),
-                       "Sw": np.array([s["w"] for s in sats], dtype=float),
-                       "Sg": np.array([s["g"] for s in sats], dtype=float)})
+    """Record array with fields So, Sw, Sg (as the tests build it: DataFrame.to_records(index=False)).  The order in which
+    the three named fields are laid out is the caller's choice (the function's own docstring lists So, Sg, Sw); it rotates
+    with the content so that every layout is exercised."""
+    cols = {"So": np.array([s["o"] for s in sats], dtype=float), "Sw": np.array([s["w"] for s in sats], dtype=float),
+            "Sg": np.array([s["g"] for s in sats], dtype=float)}
+    order = FIELD_ORDERS[(len(sats) + int(round(1e6 * float(cols["So"][0]))) if len(sats) else 0) % len(FIELD_ORDERS)]
+    df = pd.DataFrame({k: cols[k] for k in order})
     return df.to_records(index=False)
 
 
